@@ -9,7 +9,7 @@ from vf import gen
 
 EDXML_NS = 'http://edxml.org/edxml'
 PROPS = ['p', 'q', 'p.r']
-VALS = ['a', 'b', 'c', ' a', '', 'ä']
+VALS = ['a', 'b', 'c', ' a', '', 'ä', 'A', 'ÄB']
 ATTS = ['x', 'y']
 IDS = ['i', 'j', 'k k']
 AVALS = ['v', 'w', ' ', 'line\nbreak']
@@ -21,7 +21,7 @@ REPRS = ['plain', 'element', 'parsed']
 
 OP_KINDS = ['set', 'set1', 'del', 'add', 'remove', 'discard', 'update', 'clear', 'pop', 'set_properties', 'props_setter', 'iadd',
             'set_attachment_dict', 'set_attachment_str', 'set_attachment_list', 'set_attachment_none', 'att_setitem', 'att_delitem',
-            'att_del', 'atts_setter', 'set_parents', 'add_parents', 'set_type', 'set_source', 'set_foreign', 'copy', 'read']
+            'att_del', 'atts_setter', 'set_parents', 'add_parents', 'set_type', 'set_source', 'set_foreign', 'copy', 'read', 'write']
 
 
 # ---- the reference: a dictionary of sets ---------------------------------------------------------------
@@ -188,6 +188,19 @@ def apply_real(events, op):
         e.set_foreign_attributes(dict(op['kv']))
     elif k == 'copy':
         events.append(e.copy())
+    elif k == 'write':
+        # handing the event to a validating, repairing writer must not change it (the writer works on a copy)
+        import io
+        from edxml import EDXMLWriter
+        w = EDXMLWriter(io.BytesIO(), validate=True)
+        for t in TYPES:
+            w.enable_auto_repair_normalize(t, list(PROPS))
+            w.enable_auto_repair_drop(t, list(PROPS))
+        w.add_ontology(writer_ontology())
+        try:
+            w.add_event(e)
+        except Exception:
+            pass
     elif k == 'read':
         # reads must not change anything
         e.get_properties()
@@ -195,6 +208,27 @@ def apply_real(events, op):
         _ = [e.get_any(p) for p in PROPS]
         _ = [p in e for p in PROPS]
         _ = [e[p] for p in PROPS if p in e]
+
+
+_WRITER_ONTOLOGY = []
+
+
+def writer_ontology():
+    """Event types t and u with lower case string properties: upper case objects are repairable, others may be dropped."""
+    if not _WRITER_ONTOLOGY:
+        from edxml.ontology import Ontology
+        o = Ontology()
+        o.create_object_type('o.lc', data_type='string:3:lc:u')
+        for t in TYPES:
+            et = o.create_event_type(t)
+            for pn in PROPS:
+                et.create_property(pn, 'o.lc').make_optional().make_multivalued()
+            for a in ATTS:
+                et.create_attachment(a)
+        for src in SOURCES:
+            o.create_event_source(src)
+        _WRITER_ONTOLOGY.append(o)
+    return _WRITER_ONTOLOGY[0]
 
 
 def gen_op(rng, n_objects, state_of, kinds=OP_KINDS):
@@ -385,7 +419,8 @@ class C07(Property):
 
     # -- model
     def requests(self, case):
-        return [{'op': 'evops', 'initial': case['initial'], 'ops': case['ops']}]
+        # for the model, writing is reading: it changes nothing
+        return [{'op': 'evops', 'initial': case['initial'], 'ops': [dict(op, k='read') if op['k'] == 'write' else op for op in case['ops']]}]
 
     def predict(self, case, replies):
         # the model answers the abstract view and the XML view of every live object after every operation
